@@ -1241,7 +1241,10 @@ class ApertureStats:
         """
         areas = np.array([np.sum(weight.filled(0.0))
                           for weight in self._weight_cutout])
-        areas[self._all_masked] = np.nan
+        # use the sum_method mask (not the "center" mask) to be
+        # consistent with ``sum``
+        all_masked = np.array([np.all(mask) for mask in self._mask_cutout])
+        areas[all_masked] = np.nan
         return areas << (u.pix**2)
 
     @lazyproperty
